@@ -176,6 +176,7 @@ fn run(tier: Tier, shard: usize, n: usize) -> Report {
 		let tree = universe(scr, tier);
 		let mut inv = Inv06 { inst: "U".into() };
 		let mut ex = Explorer::new(&tree, scr, Options::NONE, "U");
+		ex.live_check = 2;
 		ex.shard = (shard, n);
 		ex.probe_split = true;
 		let evs: Vec<Ev> = (0..tree.blocks.len()).filter(|i| tree.valid(*i).is_ok()).map(Ev::B).collect();
